@@ -57,6 +57,41 @@ def sc_valued_names(ctx: Ctx, f: FuncInfo, kind: str) -> set[str]:
     return out
 
 
+def sc_flag_names(ctx: Ctx, f: FuncInfo, kind: str) -> set[str]:
+    """Local flags: every definition is a stop-condition call of that kind, `flag or <call>`, or a constant False / None
+    initialiser (at least one of each).  A true flag implies that some consult returned true; a false flag implies nothing."""
+    out = set()
+    for name, defs in local_defs(f).items():
+        calls = consts = 0
+        ok = True
+        for d in defs:
+            core = d
+            if isinstance(core, ast.BoolOp) and isinstance(core.op, ast.Or) and len(core.values) == 2 and isinstance(core.values[0], ast.Name) and core.values[0].id == name:
+                core = core.values[1]
+            if isinstance(core, ast.Call) and stop_call_kind(ctx, f, core) == kind:
+                calls += 1
+            elif isinstance(core, ast.Constant) and core.value in (False, None):
+                consts += 1
+            else:
+                ok = False
+        if ok and calls and consts:
+            out.add(name)
+    return out
+
+
+def consult_verdict(ctx: Ctx, f: FuncInfo, node: Node, kind: str, lab):
+    """The stop condition's verdict established by leaving cond node `node` through edge `lab`:
+    True / False, None (no information), or "?" (consulted in a form the analyser cannot attribute)."""
+    pol = cond_consult(ctx, f, node, kind)
+    if pol == 2:
+        return "?"
+    if pol == 0 or lab not in (True, False):
+        return None
+    if pol == 3:
+        return True if lab else None
+    return lab if pol == 1 else (not lab)
+
+
 def cond_consult(ctx: Ctx, f: FuncInfo, node: Node, kind: str) -> int:
     """For a cond node: +1 if its truth equals the stop condition's verdict, -1 if it is the
     negation, 0 if the node does not consult a stop condition of that kind.
@@ -76,6 +111,8 @@ def cond_consult(ctx: Ctx, f: FuncInfo, node: Node, kind: str) -> int:
         if not any(neg):
             return 1
         return 0
+    if isinstance(e, ast.Name) and e.id in sc_flag_names(ctx, f, kind):
+        return 3
     if isinstance(e, ast.Compare) and len(e.ops) == 1 and isinstance(e.ops[0], (ast.Is, ast.Eq, ast.IsNot, ast.NotEq)):
         # `gsc(tree) is True` / `== False`
         l, r = e.left, e.comparators[0]
